@@ -95,7 +95,13 @@ pub struct MsgSpec {
     pub lt: Value,
     /// raw bytes instead of a built message (garbage / truncated)
     pub raw: Option<Vec<u8>>,
+    /// hostile mutation applied to the built message (C03): null or
+    /// {"kind":"inject|trunc_val|rand_val|dup|bitflip|trunc|extend","idx":n,"off":n,"s":n}
+    pub hostile: Value,
 }
+
+pub const HOSTILE_STR: &[&str] = &["\u{C3}\u{A9}", "\u{e9}", "\u{4e2d}", "\"", "\\", "\u{0}", "\u{fd}\u{80}",
+    "\u{7f}", " ", "\u{1F600}", "\u{C3}"];
 
 #[derive(Debug, Clone)]
 pub enum Step {
@@ -701,7 +707,45 @@ impl Driver {
         if want_fp {
             items.push(Item::Fp(m.fp == "bad"));
         }
-        let bytes = obs::build(method, m.class, &id, &items);
-        (bytes, json!({"target":tkind,"auth":m.auth,"fp":m.fp,"code":m.code}))
+        // hostile mutations: at item level before the MAC / CRC items are computed (so that the
+        // hostile content arrives behind a valid fingerprint / integrity where possible) ...
+        let h = &m.hostile;
+        let hk = h["kind"].as_str().unwrap_or("");
+        let raws: Vec<usize> = items.iter().enumerate().filter(|(_, it)| matches!(it, Item::Raw(..))).map(|(i, _)| i).collect();
+        if !raws.is_empty() && ["inject", "trunc_val", "rand_val", "dup"].contains(&hk) {
+            let ri = raws[h["idx"].as_u64().unwrap_or(0) as usize % raws.len()];
+            let off = h["off"].as_u64().unwrap_or(0) as usize;
+            if let Item::Raw(t, v) = items[ri].clone() {
+                match hk {
+                    "inject" => {
+                        let mut v2 = v.clone();
+                        let at = off % (v.len() + 1);
+                        let ins = HOSTILE_STR[h["s"].as_u64().unwrap_or(0) as usize % HOSTILE_STR.len()].as_bytes();
+                        v2.splice(at..at, ins.iter().cloned());
+                        items[ri] = Item::Raw(t, v2);
+                    }
+                    "trunc_val" => items[ri] = Item::Raw(t, v[..off % (v.len() + 1)].to_vec()),
+                    "rand_val" => {
+                        let n = off % 48;
+                        let mut x = h["s"].as_u64().unwrap_or(7) as u32 | 1;
+                        let nv: Vec<u8> = (0..n).map(|_| { x ^= x << 13; x ^= x >> 17; x ^= x << 5; x as u8 }).collect();
+                        items[ri] = Item::Raw(t, nv);
+                    }
+                    _ => items.insert(ri, Item::Raw(t, v)),
+                }
+            }
+        }
+        let mut bytes = obs::build(method, m.class, &id, &items);
+        // ... or at byte level afterwards
+        match hk {
+            "bitflip" if !bytes.is_empty() => {
+                let i = h["off"].as_u64().unwrap_or(0) as usize % bytes.len();
+                bytes[i] ^= 1 << (h["s"].as_u64().unwrap_or(0) % 8);
+            }
+            "trunc" => { let k = h["off"].as_u64().unwrap_or(0) as usize % (bytes.len() + 1); bytes.truncate(k); }
+            "extend" => { for i in 0..(h["off"].as_u64().unwrap_or(0) % 40) { bytes.push((i * 37) as u8); } }
+            _ => {}
+        }
+        (bytes, json!({"target":tkind,"auth":m.auth,"fp":m.fp,"code":m.code,"hostile":hk}))
     }
 }
